@@ -10,6 +10,8 @@ import Mathlib.Algebra.Group.Basic
 import Mathlib.Data.Nat.ModEq
 import Mathlib.Data.Int.ModEq
 import Mathlib.Data.List.Basic
+import Mathlib.Data.Nat.GCD.Basic
+import Mathlib.Data.Nat.ChineseRemainder
 namespace Mpir.Powm
 open Mpir
 
@@ -766,5 +768,386 @@ theorem modInv_zero (m : Nat) (hm : m ≠ 1) : modInv? 0 m = none := by
   have h : xgcdAux 0 1 m 0 = (m, 0) := by rw [xgcdAux.eq_def]
   unfold modInv?
   simp [h, hm]
+
+
+/-! ### CRT recombination for even moduli -/
+
+theorem coprime_two_pow_odd (t modd : Nat) (hodd : modd % 2 = 1) : Nat.Coprime (2 ^ t) modd := by
+  apply Nat.Coprime.pow_left
+  rw [Nat.Coprime, Nat.gcd_rec, hodd]; simp
+
+/-- The CRT recombination of mpz_powm (powm.c:245-264), on values.
+    `N = B^ncnt` is the precision of the power-of-two side, `2^t ∣ N`; `inv·modd ≡ 1 (mod N)`;
+    `d ≡ r2 − rodd (mod N)`; `x = (inv·d mod N) mod 2^t`; the result `x·modd + rodd` is `P mod 2^t·modd`
+    whenever `rodd = P mod modd` and `r2 ≡ P (mod 2^t)`. -/
+theorem crt_value (P modd t N inv r2 rodd d : Nat) (hodd : modd % 2 = 1) (hN : 2 ^ t ∣ N)
+    (hinv : (inv * modd) % N = 1 % N) (hrodd : rodd = P % modd) (hr2 : r2 % 2 ^ t = P % 2 ^ t)
+    (hd : (d + rodd % N) % N = r2 % N) :
+    (inv * d) % N % 2 ^ t * modd + rodd = P % (2 ^ t * modd) := by
+  have hmpos : 0 < modd := by omega
+  have htpos : 0 < 2 ^ t := two_pow_pos t
+  set x := (inv * d) % N % 2 ^ t with hx
+  have hxlt : x < 2 ^ t := Nat.mod_lt _ htpos
+  have hrlt : rodd < modd := by rw [hrodd]; exact Nat.mod_lt _ hmpos
+  -- range
+  have hlt : x * modd + rodd < 2 ^ t * modd := by
+    have : (x + 1) * modd ≤ 2 ^ t * modd := Nat.mul_le_mul_right _ hxlt
+    have e : (x + 1) * modd = x * modd + modd := by ring
+    omega
+  -- congruence modulo modd
+  have h1 : x * modd + rodd ≡ P [MOD modd] := by
+    unfold Nat.ModEq
+    rw [Nat.add_comm, Nat.add_mul_mod_self_right, hrodd, Nat.mod_mod]
+  -- congruence modulo 2^t
+  have h2 : x * modd + rodd ≡ P [MOD 2 ^ t] := by
+    have hxe : x ≡ inv * d [MOD 2 ^ t] := by
+      rw [hx]
+      exact (Nat.mod_modEq _ _).trans ((Nat.mod_modEq _ N).of_dvd hN)
+    have hinv' : inv * modd ≡ 1 [MOD 2 ^ t] := by
+      have : inv * modd ≡ 1 [MOD N] := hinv
+      exact this.of_dvd hN
+    have hd' : d + rodd ≡ r2 [MOD 2 ^ t] := by
+      have h0 : d + rodd % N ≡ r2 [MOD N] := hd
+      have h3 : d + rodd % N ≡ d + rodd [MOD N] := Nat.ModEq.add_left d (Nat.mod_modEq _ _)
+      exact (h3.symm.trans h0).of_dvd hN
+    have hr2' : r2 ≡ P [MOD 2 ^ t] := hr2
+    calc x * modd + rodd ≡ inv * d * modd + rodd [MOD 2 ^ t] := (hxe.mul_right modd).add_right rodd
+      _ = (inv * modd) * d + rodd := by ring
+      _ ≡ 1 * d + rodd [MOD 2 ^ t] := (hinv'.mul_right d).add_right rodd
+      _ = d + rodd := by ring
+      _ ≡ r2 [MOD 2 ^ t] := hd'
+      _ ≡ P [MOD 2 ^ t] := hr2'
+  have h3 : x * modd + rodd ≡ P [MOD 2 ^ t * modd] :=
+    (Nat.modEq_and_modEq_iff_modEq_mul (coprime_two_pow_odd t modd hodd)).1 ⟨h2, h1⟩
+  have h4 : x * modd + rodd ≡ P % (2 ^ t * modd) [MOD 2 ^ t * modd] := h3.trans (Nat.mod_modEq _ _).symm
+  exact h4.eq_of_lt_of_lt hlt (Nat.mod_lt _ (Nat.mul_pos htpos hmpos))
+
+
+/-! ### mpn_add (kernel model) -/
+
+theorem incr_val (x : List Nat) : Limbs x →
+    val (incr x).1 + B ^ x.length * (incr x).2 = val x + 1 ∧ (incr x).2 ≤ 1 ∧
+    Limbs (incr x).1 ∧ (incr x).1.length = x.length := by
+  induction x with
+  | nil => intro _; simp [incr, Limbs_nil]
+  | cons x xs ih =>
+    intro h
+    have ⟨hx, hxs⟩ := Limbs_cons.mp h
+    unfold incr
+    by_cases h0 : (x + 1) % B < 1
+    · have hx0 : x = B - 1 := by simp only [B_eq] at *; omega
+      obtain ⟨iv, ic, il, iln⟩ := ih hxs
+      have hm : (x + 1) % B = 0 := by omega
+      simp only [hm, show (0 : Nat) < 1 by decide, if_true, val_cons, List.length_cons, pow_succ]
+      refine ⟨?_, ic, Limbs_cons.mpr ⟨B_pos, il⟩, by rw [iln]⟩
+      have hB := B_pos
+      generalize incr xs = res at *
+      have h2 : B * (val res.1 + B ^ xs.length * res.2) = B * (val xs + 1) := by rw [iv]
+      have h3 : x + 1 = B := by omega
+      linarith [h2, h3]
+    · simp only [h0, if_false, val_cons, List.length_cons]
+      have hm : (x + 1) % B = x + 1 := by simp only [B_eq] at *; omega
+      rw [hm]
+      exact ⟨by omega, by omega, Limbs_cons.mpr ⟨by simp only [B_eq] at *; omega, hxs⟩, by simp⟩
+
+/-- mpn_add (xsize ≥ ysize): value identity with the returned carry. -/
+theorem add_val (x y : List Nat) (hx : Limbs x) (hy : Limbs y) (hlen : y.length ≤ x.length) :
+    val (add x y).1 + B ^ x.length * (add x y).2 = val x + val y ∧ (add x y).2 ≤ 1 ∧
+    Limbs (add x y).1 ∧ (add x y).1.length = x.length := by
+  have htl : (x.take y.length).length = y.length := by rw [List.length_take]; omega
+  obtain ⟨sv, sc, sl, sn⟩ := addNC_val (x.take y.length) y 0 (Limbs_take hx _) hy htl (by omega)
+  have hsplit := val_take_drop x y.length hlen
+  have hdl : (x.drop y.length).length = x.length - y.length := List.length_drop
+  rw [htl] at sv sn
+  have hp : B ^ x.length = B ^ y.length * B ^ (x.length - y.length) := by
+    rw [← pow_add]; congr 1; omega
+  have hdef : add x y = if (addNC (x.take y.length) y 0).2 != 0
+      then ((addNC (x.take y.length) y 0).1 ++ (incr (x.drop y.length)).1, (incr (x.drop y.length)).2)
+      else ((addNC (x.take y.length) y 0).1 ++ x.drop y.length, 0) := by
+    unfold add add_n; rfl
+  rw [hdef]
+  generalize addNC (x.take y.length) y 0 = lo at *
+  obtain ⟨lo1, cy⟩ := lo
+  simp only at sv sc sl sn ⊢
+  by_cases hc : cy = 0
+  · subst hc
+    have hif : ((0 : Nat) != 0) = false := rfl
+    simp only [hif, Bool.false_eq_true, if_false, val_append, sn]
+    refine ⟨by omega, by omega, Limbs_append.mpr ⟨sl, Limbs_drop hx _⟩, ?_⟩
+    rw [List.length_append, sn, hdl]; omega
+  · have hc1 : cy = 1 := by omega
+    subst hc1
+    obtain ⟨dv, dc, dl, dn⟩ := incr_val (x.drop y.length) (Limbs_drop hx _)
+    generalize incr (x.drop y.length) = hi at *
+    obtain ⟨hi1, c⟩ := hi
+    have hif : ((1 : Nat) != 0) = true := rfl
+    simp only [hif, if_true, val_append, sn] at dv dc dl dn ⊢
+    refine ⟨?_, dc, Limbs_append.mpr ⟨sl, dl⟩, ?_⟩
+    · rw [hdl] at dv
+      rw [hp]
+      generalize B ^ y.length = P at *
+      generalize B ^ (x.length - y.length) = Q at *
+      have h2 : P * (val hi1 + Q * c) = P * (val (x.drop y.length) + 1) := by rw [dv]
+      linarith [sv, h2, hsplit]
+    · rw [List.length_append, sn, dn, hdl]; omega
+
+/-- mpn_add whose sum fits: no carry. -/
+theorem add_exact (x y : List Nat) (hx : Limbs x) (hy : Limbs y) (hlen : y.length ≤ x.length)
+    (hfit : val x + val y < B ^ x.length) :
+    val (add x y).1 = val x + val y ∧ Limbs (add x y).1 ∧ (add x y).1.length = x.length := by
+  obtain ⟨hv, hc, hl, hn⟩ := add_val x y hx hy hlen
+  refine ⟨?_, hl, hn⟩
+  by_cases h0 : (add x y).2 = 0
+  · rw [h0] at hv; omega
+  · have h1 : (add x y).2 = 1 := by omega
+    rw [h1] at hv; omega
+
+
+/-! ### the even-modulus part of mpz_powm (powm.c:196-268) -/
+
+theorem zeros_length (k : Nat) : (zeros k).length = k := by simp [zeros]
+theorem Limbs_zeros (k : Nat) : Limbs (zeros k) := by
+  intro x hx; simp [zeros] at hx; rw [hx.2]; exact B_pos
+theorem val_zeros (k : Nat) : val (zeros k) = 0 := by
+  induction k with
+  | zero => rfl
+  | succ k ih => simp [zeros, List.replicate_succ] at *; exact Or.inr ih
+theorem val_append_zeros (l : List Nat) (k : Nat) : val (l ++ zeros k) = val l := by
+  rw [val_append, val_zeros]; simp
+
+/-- the low-zero-bit count of an even limb that powm.c:224 computes: `(0x1213 >> ((b & 7) << 1)) & 3`. -/
+theorem bcnt_spec (b0 : Nat) (hev : b0 % 2 = 0) :
+    2 ^ ((0x1213 >>> ((b0 &&& 7) <<< 1)) &&& 3) ∣ b0 := by
+  have h7 : b0 &&& 7 = b0 % 8 := Nat.and_two_pow_sub_one_eq_mod b0 3
+  rw [h7]
+  have h8 : b0 % 8 = 0 ∨ b0 % 8 = 2 ∨ b0 % 8 = 4 ∨ b0 % 8 = 6 := by omega
+  rcases h8 with h | h | h | h <;> rw [h] <;> simp <;> omega
+
+/-- if `2^z ∣ b` and `t ≤ z·e` then `b^e ≡ 0 (mod 2^t)`. -/
+theorem pow_mod_two_pow_zero (b e z t : Nat) (hz : 2 ^ z ∣ b) (ht : t ≤ z * e) : b ^ e % 2 ^ t = 0 := by
+  apply Nat.mod_eq_zero_of_dvd
+  have h1 : (2 ^ z) ^ e ∣ b ^ e := pow_dvd_pow_of_dvd hz e
+  rw [← pow_mul] at h1
+  exact (Nat.pow_dvd_pow 2 ht).trans h1
+
+
+/-- number of low zero bits of `m` as powm.c:221 computes it from (ncnt, cnt). -/
+def tbits (ncnt cnt : Nat) : Nat := (ncnt - (if cnt != 0 then 1 else 0)) * 64 + cnt
+
+theorem tbits_eq (ncnt cnt : Nat) : tbits ncnt cnt = if cnt = 0 then ncnt * 64 else (ncnt - 1) * 64 + cnt := by
+  unfold tbits
+  by_cases h : cnt = 0 <;> simp [h]
+
+theorem tbits_le (ncnt cnt : Nat) (hncnt : 1 ≤ ncnt) (hcnt : cnt < 64) : tbits ncnt cnt ≤ ncnt * 64 := by
+  rw [tbits_eq]; split <;> omega
+
+theorem tbits_dvd (ncnt cnt : Nat) (hncnt : 1 ≤ ncnt) (hcnt : cnt < 64) : 2 ^ tbits ncnt cnt ∣ B ^ ncnt := by
+  rw [B_eq_two_pow, ← pow_mul]
+  apply Nat.pow_dvd_pow
+  have := tbits_le ncnt cnt hncnt hcnt; omega
+
+/-- the choice of `r2` in powm.c:212-234 (`mpn_powlo`, or zero when the base is even and the
+    exponent is large enough): congruent to `b^e` modulo `2^t`. -/
+theorem r2_choice (bp ep : List Nat) (ncnt cnt : Nat) (hbp : Limbs bp) (hbne : bp ≠ []) (hep : Norm ep) (hepne : ep ≠ [])
+    (hncnt : 1 ≤ ncnt) (hcnt : cnt < 64) (hsz : ncnt * 64 < B)
+    (hpowlo : ∀ bq, Limbs bq → val (mpn_powlo bq ep ncnt) = val bq ^ val ep % B ^ ncnt) :
+    let bpl := if bp.length < ncnt then bp ++ zeros (ncnt - bp.length) else bp
+    let r2 := if bpl.headD 0 % 2 = 0 then
+        if ep.length > 1 then zeros ncnt
+        else
+          if (ep.headD 0 * ((0x1213 >>> ((bpl.headD 0 &&& 7) <<< 1)) &&& 3)) % B ≥ tbits ncnt cnt
+          then zeros ncnt else mpn_powlo bpl ep ncnt
+      else mpn_powlo bpl ep ncnt
+    Limbs r2 ∧ r2.length = ncnt ∧ val r2 % 2 ^ tbits ncnt cnt = val bp ^ val ep % 2 ^ tbits ncnt cnt := by
+  intro bpl r2
+  have hdvd := tbits_dvd ncnt cnt hncnt hcnt
+  have hbplL : Limbs bpl := by
+    simp only [bpl]; split
+    · exact Limbs_append.mpr ⟨hbp, Limbs_zeros _⟩
+    · exact hbp
+  have hbplv : val bpl = val bp := by
+    simp only [bpl]; split
+    · exact val_append_zeros _ _
+    · rfl
+  have hhead : bpl.headD 0 = bp.headD 0 := by
+    simp only [bpl]; split
+    · cases bp with
+      | nil => exact absurd rfl hbne
+      | cons x xs => rfl
+    · rfl
+  have hpl : Limbs (mpn_powlo bpl ep ncnt) ∧ (mpn_powlo bpl ep ncnt).length = ncnt ∧
+      val (mpn_powlo bpl ep ncnt) % 2 ^ tbits ncnt cnt = val bp ^ val ep % 2 ^ tbits ncnt cnt := by
+    refine ⟨Limbs_toLimbs _ _, toLimbs_length _ _, ?_⟩
+    rw [hpowlo bpl hbplL, hbplv, Nat.mod_mod_of_dvd _ hdvd]
+  have hzero : 2 ^ tbits ncnt cnt ∣ val bp ^ val ep →
+      Limbs (zeros ncnt) ∧ (zeros ncnt).length = ncnt ∧
+      val (zeros ncnt) % 2 ^ tbits ncnt cnt = val bp ^ val ep % 2 ^ tbits ncnt cnt := by
+    intro h
+    refine ⟨Limbs_zeros _, zeros_length _, ?_⟩
+    rw [val_zeros, Nat.mod_eq_zero_of_dvd h]; simp
+  -- b = b0 + B·rest
+  have hb0 : ∀ z, z ≤ 64 → 2 ^ z ∣ bp.headD 0 → 2 ^ z ∣ val bp := by
+    intro z hz hd
+    cases bp with
+    | nil => exact absurd rfl hbne
+    | cons x xs =>
+      simp only [List.headD_cons] at hd
+      rw [val_cons]
+      have : 2 ^ z ∣ B := by rw [B_eq_two_pow]; exact Nat.pow_dvd_pow 2 hz
+      exact Nat.dvd_add hd (Dvd.dvd.mul_right this _)
+  have htle : tbits ncnt cnt ≤ ncnt * 64 := tbits_le ncnt cnt hncnt hcnt
+  simp only [r2]
+  by_cases hev : bpl.headD 0 % 2 = 0
+  · simp only [hev, if_true]
+    by_cases hen : ep.length > 1
+    · simp only [hen, if_true]
+      apply hzero
+      -- e ≥ B > t, and 2 ∣ b
+      have h2 : 2 ^ 1 ∣ val bp := hb0 1 (by omega) (by rw [← hhead, pow_one]; exact Nat.dvd_of_mod_eq_zero hev)
+      have hge : B ^ (ep.length - 1) ≤ val ep := Norm_ge ep hep hepne
+      have hB1 : B ^ 1 ≤ B ^ (ep.length - 1) := Nat.pow_le_pow_right B_pos (by omega)
+      have := pow_mod_two_pow_zero (val bp) (val ep) 1 (tbits ncnt cnt) h2 (by rw [pow_one] at hB1; omega)
+      exact Nat.dvd_of_mod_eq_zero this
+    · simp only [hen, if_false]
+      by_cases hge : (ep.headD 0 * ((0x1213 >>> ((bpl.headD 0 &&& 7) <<< 1)) &&& 3)) % B ≥ tbits ncnt cnt
+      · simp only [hge, if_true]
+        apply hzero
+        -- en = 1: e = ep[0]
+        have he : val ep = ep.headD 0 := by
+          match ep, hepne, hen with
+          | [x], _, _ => simp
+          | x :: y :: l, _, h => simp at h
+        have hz := bcnt_spec (bpl.headD 0) hev
+        generalize hzz : ((0x1213 >>> ((bpl.headD 0 &&& 7) <<< 1)) &&& 3) = z at *
+        have hz3 : z ≤ 64 := by
+          rw [← hzz]
+          have : (0x1213 >>> ((bpl.headD 0 &&& 7) <<< 1)) &&& 3 ≤ 3 := Nat.and_le_right
+          omega
+        have hzb : 2 ^ z ∣ val bp := hb0 z hz3 (by rw [← hhead]; exact hz)
+        have hle : (ep.headD 0 * z) % B ≤ ep.headD 0 * z := Nat.mod_le _ _
+        have htt : tbits ncnt cnt ≤ z * val ep := by
+          rw [he, Nat.mul_comm]; omega
+        exact Nat.dvd_of_mod_eq_zero (pow_mod_two_pow_zero _ _ z _ hzb htt)
+      · simp only [hge, if_false]
+        exact hpl
+  · simp only [hev, if_false]
+    exact hpl
+
+
+theorem powmEven_tbits (n : Nat) (bp ep modd : List Nat) (nodd ncnt cnt : Nat) (rodd : List Nat) :
+    powmEven n bp ep modd nodd ncnt cnt rodd =
+    (let bpl := if bp.length < ncnt then bp ++ zeros (ncnt - bp.length) else bp
+     let r2 := if bpl.headD 0 % 2 = 0 then
+        if ep.length > 1 then zeros ncnt
+        else
+          if (ep.headD 0 * ((0x1213 >>> ((bpl.headD 0 &&& 7) <<< 1)) &&& 3)) % B ≥ tbits ncnt cnt
+          then zeros ncnt else mpn_powlo bpl ep ncnt
+      else mpn_powlo bpl ep ncnt
+     let mpl := if nodd < ncnt then modd ++ zeros (ncnt - nodd) else modd
+     let odd_inv := binvert (val (mpl.take ncnt)) ncnt
+     let d := (sub r2 (rodd.take (min nodd ncnt))).1
+     let x := (odd_inv * val d) % B ^ ncnt
+     let x := if cnt != 0 then x % 2 ^ ((ncnt - 1) * 64 + cnt) else x
+     let yp := toLimbs (ncnt + nodd) (x * val modd)
+     (add (yp.take n) rodd).1) := rfl
+
+/-- powm.c:196-268 — CRT recombination for an even modulus `m = 2^t · modd`
+    (`t = tbits ncnt cnt` low zero bits: `ncnt` limbs of which the top one holds `cnt` bits when `cnt ≠ 0`).
+    Given the odd-part result `rodd = b^e mod modd` (what mpn_powm returns) and the specifications of the
+    two callees (`mpn_powlo` computes `b^e mod B^ncnt`, `mpn_binvert` the inverse modulo `B^ncnt`),
+    the limbs left in `rp[0..n)` are `b^e mod m`, for every base (odd, even with any number of low zero
+    bits — including the two shortcuts that skip mpn_powlo) and every exponent `> 1`. -/
+theorem powmEven_correct (n : Nat) (bp ep modd rodd : List Nat) (nodd ncnt cnt : Nat)
+    (hbp : Limbs bp) (hbne : bp ≠ []) (hep : Norm ep) (hepne : ep ≠ [])
+    (hmodd : Limbs modd) (hml : modd.length = nodd) (hodd : val modd % 2 = 1)
+    (hncnt : 1 ≤ ncnt) (hcnt : cnt < 64) (hn1 : nodd ≤ n) (hn2 : n ≤ nodd + ncnt)
+    (hfit : 2 ^ tbits ncnt cnt * val modd < B ^ n) (hsz : ncnt * 64 < B)
+    (hrodd : rodd = toLimbs nodd (val bp ^ val ep % val modd))
+    (hpowlo : ∀ bq, Limbs bq → val (mpn_powlo bq ep ncnt) = val bq ^ val ep % B ^ ncnt)
+    (hbinv : ∀ u, u % 2 = 1 → (binvert u ncnt * u) % B ^ ncnt = 1) :
+    val (powmEven n bp ep modd nodd ncnt cnt rodd) = val bp ^ val ep % (2 ^ tbits ncnt cnt * val modd) ∧
+    Limbs (powmEven n bp ep modd nodd ncnt cnt rodd) ∧ (powmEven n bp ep modd nodd ncnt cnt rodd).length = n := by
+  rw [powmEven_tbits]
+  obtain ⟨hr2L, hr2n, hr2v⟩ := r2_choice bp ep ncnt cnt hbp hbne hep hepne hncnt hcnt hsz hpowlo
+  simp only at hr2L hr2n hr2v ⊢
+  generalize (if (if bp.length < ncnt then bp ++ zeros (ncnt - bp.length) else bp).headD 0 % 2 = 0 then _ else _ : List Nat) = r2 at *
+  set P := val bp ^ val ep with hP
+  set N := B ^ ncnt with hN
+  have hNpos : 0 < N := Nat.pow_pos B_pos
+  have hdvd := tbits_dvd ncnt cnt hncnt hcnt
+  have hmpos : 0 < val modd := by omega
+  have hmlt : val modd < B ^ nodd := by rw [← hml]; exact val_lt modd hmodd
+  -- rodd
+  have hroddv : val rodd = P % val modd := by
+    rw [hrodd]; exact val_toLimbs_lt _ _ (lt_trans (Nat.mod_lt _ hmpos) hmlt)
+  have hroddL : Limbs rodd := by rw [hrodd]; exact Limbs_toLimbs _ _
+  have hroddn : rodd.length = nodd := by rw [hrodd]; exact toLimbs_length _ _
+  -- the low part of rodd that is subtracted
+  have hy : val (rodd.take (min nodd ncnt)) = val rodd % N := by
+    by_cases h : nodd ≤ ncnt
+    · rw [Nat.min_eq_left h, take_length_eq rodd nodd hroddn]
+      have : B ^ nodd ≤ N := Nat.pow_le_pow_right B_pos h
+      have h2 := val_lt rodd hroddL
+      rw [hroddn] at h2
+      rw [Nat.mod_eq_of_lt (by omega)]
+    · rw [Nat.min_eq_right (by omega), val_take_mod rodd hroddL]
+  have hylen : (rodd.take (min nodd ncnt)).length ≤ r2.length := by
+    rw [List.length_take, hr2n]; exact le_trans (Nat.min_le_left _ _) (Nat.min_le_right _ _)
+  obtain ⟨sv, _, sL, sn⟩ := sub_val r2 _ hr2L (Limbs_take hroddL _) hylen
+  rw [hy, hr2n] at sv
+  rw [hr2n] at sn
+  generalize (sub r2 (rodd.take (min nodd ncnt))).1 = d at *
+  generalize (sub r2 (rodd.take (min nodd ncnt))).2 = bw at *
+  have hd : (val d + val rodd % N) % N = val r2 % N := by
+    rw [sv, Nat.add_mul_mod_self_left]
+  -- the inverse
+  have hmplv : val ((if nodd < ncnt then modd ++ zeros (ncnt - nodd) else modd).take ncnt) = val modd % N := by
+    split
+    · rename_i h
+      rw [take_length_eq _ _ (by rw [List.length_append, hml, zeros_length]; omega), val_append_zeros]
+      have : B ^ nodd ≤ N := Nat.pow_le_pow_right B_pos (le_of_lt h)
+      rw [Nat.mod_eq_of_lt (by omega)]
+    · rw [val_take_mod modd hmodd]
+  rw [hmplv]
+  have hBeven : N % 2 = 0 := by
+    rw [hN, B_eq_two_pow, ← pow_mul]
+    have : 64 * ncnt = (64 * ncnt - 1) + 1 := by omega
+    rw [this, pow_succ]; simp
+  have hmodN : (val modd % N) % 2 = 1 := by
+    rw [Nat.mod_mod_of_dvd _ (Nat.dvd_of_mod_eq_zero hBeven)]; exact hodd
+  have hinv0 := hbinv (val modd % N) hmodN
+  generalize binvert (val modd % N) ncnt = inv at *
+  have h1N : 1 < N := by
+    have : B ^ 1 ≤ N := Nat.pow_le_pow_right B_pos hncnt
+    simp only [pow_one, B_eq] at this; omega
+  have hinv : (inv * val modd) % N = 1 % N := by
+    rw [Nat.mod_eq_of_lt h1N, Nat.mul_mod, ← hinv0, Nat.mul_mod inv (val modd % N), Nat.mod_mod]
+  -- the masked quotient
+  have hx : (if (cnt != 0) = true then (inv * val d) % N % 2 ^ ((ncnt - 1) * 64 + cnt) else (inv * val d) % N)
+      = (inv * val d) % N % 2 ^ tbits ncnt cnt := by
+    rw [tbits_eq]
+    by_cases hc : cnt = 0
+    · have hNt : N = 2 ^ (ncnt * 64) := by rw [hN, B_eq_two_pow, ← pow_mul, Nat.mul_comm]
+      simp only [hc, bne_self_eq_false, Bool.false_eq_true, if_false, if_true]
+      rw [← hNt, Nat.mod_mod]
+    · simp [hc]
+  rw [hx]
+  have hcrt := crt_value P (val modd) (tbits ncnt cnt) N inv (val r2) (val rodd) (val d) hodd hdvd hinv hroddv hr2v hd
+  generalize (inv * val d) % N % 2 ^ tbits ncnt cnt = x at *
+  have hlt : x * val modd + val rodd < B ^ n := by
+    rw [hcrt]
+    exact lt_trans (Nat.mod_lt _ (Nat.mul_pos (two_pow_pos _) hmpos)) hfit
+  have hypv : val ((toLimbs (ncnt + nodd) (x * val modd)).take n) = x * val modd := by
+    rw [← val_take_mod _ (Limbs_toLimbs _ _), val_toLimbs]
+    have hle : B ^ n ≤ B ^ (ncnt + nodd) := Nat.pow_le_pow_right B_pos (by omega)
+    have hxm : x * val modd < B ^ n := Nat.lt_of_le_of_lt (Nat.le_add_right _ _) hlt
+    rw [Nat.mod_eq_of_lt (lt_of_lt_of_le hxm hle), Nat.mod_eq_of_lt hxm]
+  have hypn : ((toLimbs (ncnt + nodd) (x * val modd)).take n).length = n := by
+    rw [List.length_take, toLimbs_length]; omega
+  have hypL : Limbs ((toLimbs (ncnt + nodd) (x * val modd)).take n) := Limbs_take (Limbs_toLimbs _ _) _
+  generalize (toLimbs (ncnt + nodd) (x * val modd)).take n = yp at *
+  obtain ⟨av, aL, an⟩ := add_exact yp rodd hypL hroddL (by omega) (by rw [hypv, hypn]; exact hlt)
+  exact ⟨by rw [av, hypv, hcrt], aL, by rw [an, hypn]⟩
+
 
 end Mpir.Powm
